@@ -170,17 +170,22 @@ Theorem srp_big_refines_server : forall I P salt b A_b M1_b,
     0 <= b -> hap_server_x powm_fast I P salt b A_b M1_b = hap_server I P salt b A_b M1_b.
 Proof. exact hap_server_fast. Qed.
 
-(* ---- non-vacuity: an all-zero 16-byte salt meets the hypotheses, and one
-   concrete exchange in the real group (setup code "111-22-333", a = 2^100+7,
-   b = 3^70) evaluates to: client succeeds, A_b is 384 bytes, the accessory
-   accepts M1, the client accepts M2 and rejects M2 with bit 0 of byte 63 flipped *)
+(* ---- non-vacuity: an all-zero 16-byte salt and the real group meet the hypotheses
+   of the instance theorems; a toy instance (one-byte checksum as hash, N = 2027,
+   g = 2, leading-zero salt) meets every hypothesis of srp_proof_accepted_any_hash
+   and its exchange evaluates as stated (client Ok, accessory accepts, keys equal,
+   M2 accepted, bit-flipped M2 rejected).  Exchanges in the real 3072-bit group are
+   evaluated by every correspondence run (harness/c02.py). *)
 Example c02_nonvacuous_hyps :
   length (repeat 0%N 16) = 16%nat /\ all_bytes (repeat 0%N 16) = true /\
   0 < N3072 /\ (Z.to_N N3072 <= P256 HK_KEY_LENGTH)%N /\ Z.gcd G3072 N3072 = 1.
 Proof. repeat split; try reflexivity. exact N3072_fits. Qed.
 
-Example c02_nonvacuous_exchange : nonvacuous_exchange_check = true.
-Proof. exact nonvacuous_exchange_ok. Qed.
+Example c02_nonvacuous_exchange :
+  toy_exchange_check = true /\
+  1 < 2027 /\ Z.gcd 2 2027 = 1 /\ (Z.to_N 2027 <= P256 2)%N /\
+  length (0 :: 0 :: repeat 7 14)%N = 16%nat /\ all_bytes (0 :: 0 :: repeat 7 14)%N = true.
+Proof. exact toy_exchange_ok. Qed.
 
 Print Assumptions srp_secret_agree.
 Print Assumptions srp_powm_is_modexp.
